@@ -165,7 +165,7 @@ func runConcQueue(caseID string, seed int64, K int, root string) {
 	if g.Intn(6) == 0 {
 		closeAt = K * M // after the burst
 	}
-	consumerMode := g.Intn(3)   // 0 eager, 1 yields, 2 starts late
+	consumerMode := g.Intn(3)     // 0 eager, 1 yields, 2 starts late
 	stopBetween := g.Intn(2) == 0 // consumer may stop between Current and Advance
 	blkSize := 16 + g.Intn(100)
 	r.Begin(caseID, map[string]interface{}{"seed": seed, "appenders": K, "per_appender": M, "close_at": closeAt})
